@@ -126,6 +126,11 @@ func TestVerifC15Archive(t *testing.T) {
 						n = fmt.Sprintf("Syn%d-%d.header.txt", idx, k)
 					}
 					synth[n] = vSynthLicense(r, 30+r.Intn(400))
+					if k == 1 || (k == 3 && pl.n > 5) {
+						// a file whose normalised text is empty (notice only / punctuation only /
+						// blank): still one (text, hash) pair in the archive
+						synth[n] = []string{"Copyright (c) 2020 Example Corp. All rights reserved.\n", "-----\n*****\n", "\n\n", "#!/bin/sh\n"}[r.Intn(4)]
+					}
 					os.WriteFile(filepath.Join(outDir, "files", n), []byte(synth[n]), 0644)
 					names = append(names, n)
 				}
